@@ -78,7 +78,7 @@ def write_convolved(d, filter_name, names, flux, err, apertures_au=None, filtwav
 
 
 def write_sed_file(d, name, wav_micron, flux, err, apertures_au=None, unit='mJy', distance_cm=KPC_CM,
-                   wav_unit='um', ap_unit='AU', subdir=None, float32=False, filename=None, gz=False):
+                   wav_unit='um', ap_unit='AU', subdir=None, float32=False, filename=None, gz=False, err_unit=None):
     """One per-model SED file (seds/<name>_sed.fits).  wav_micron in any order;
     flux/err: (n_ap, n_wav) aligned with wav_micron as given."""
     sd = os.path.join(d, 'seds') if subdir is None else os.path.join(d, 'seds', subdir)
@@ -111,7 +111,7 @@ def write_sed_file(d, name, wav_micron, flux, err, apertures_au=None, unit='mJy'
     hdu2 = fits.BinTableHDU.from_columns([fits.Column(name='APERTURE', format=fmt, array=ap, unit=apu)], name='APERTURES')
     hdu3 = fits.BinTableHDU.from_columns([
         fits.Column(name='TOTAL_FLUX', format='%d%s' % (n_wav, fmt), array=flux, unit=unit),
-        fits.Column(name='TOTAL_FLUX_ERR', format='%d%s' % (n_wav, fmt), array=err, unit=unit)], name='SEDS')
+        fits.Column(name='TOTAL_FLUX_ERR', format='%d%s' % (n_wav, fmt), array=err, unit=err_unit or unit)], name='SEDS')
     path = os.path.join(sd, (filename or (str(name) + '_sed.fits')) + ('.gz' if gz else ''))
     fits.HDUList([hdu0, hdu1, hdu2, hdu3]).writeto(path, overwrite=True)
     return path
